@@ -67,9 +67,20 @@ struct T {
 			break;
 		}
 		case 3: {
-			size_t cut = p.size() / 2;
-			rc = json_pointer_getf(root, &res, "%s%s", p.substr(0, cut).c_str(), p.substr(cut).c_str());
-			how = "getf(\"%s%s\")";
+			// "<prefix>/%d" when the last token is a small canonical index, else "%s%s"
+			size_t sl = p.rfind('/');
+			size_t idx;
+			if (sl != std::string::npos && ptr_array_index(p.substr(sl + 1), idx) && idx < 100000 && p.find('%') == std::string::npos)
+			{
+				rc = json_pointer_getf(root, &res, "%s/%d", p.substr(0, sl).c_str(), (int)idx);
+				how = "getf(\"%s/%d\")";
+			}
+			else
+			{
+				size_t cut = p.size() / 2;
+				rc = json_pointer_getf(root, &res, "%s%s", p.substr(0, cut).c_str(), p.substr(cut).c_str());
+				how = "getf(\"%s%s\")";
+			}
 			break;
 		}
 		default:
